@@ -6,6 +6,7 @@ import (
 	"errors"
 	"fmt"
 	"math/big"
+	"sync/atomic"
 
 	"verif/harness/adapt/towers"
 	"verif/harness/oracle/ocurve"
@@ -26,6 +27,9 @@ var ErrInputModified = errors.New("verif: the call modified its input slices")
 func repBool(b bool) Rep { return Rep{Sys: "bool", B: b} }
 
 // Op is one library operation: Sem names the group-law meaning.
+// msmCalls alternates fresh and used receivers in the MSM adapters.
+var msmCalls atomic.Int64
+
 type Op struct {
 	Name     string
 	Sem      string // add sub dbl dblneg neg id id-noninf smul smulbase jsmul jsmulbase clearcofactor isinf oncurve insubgroup equal
